@@ -631,12 +631,14 @@ def install_shim(ctl):
     bre.threading = shim
 
 
-def run_native(decisions, msgs, re_attrs=None):
+def run_native(decisions, msgs, re_attrs=None, suspend_plans=None):
     del LEDGER[:]
     del _SIG.cbs[:]
     del _SIG_B.cbs[:]
     """-> dict(calls=[(name, outcome, state after, ...)], docs=[...], diverged=..., log=[...])"""
     ctl = Controller(decisions, msgs)
+    if suspend_plans is not None:
+        ctl.suspend_plans = bool(suspend_plans)     # (given by the scenario; otherwise inferred from the decision labels)
     _CTL["ctl"] = ctl
     install_shim(ctl)
     ctl.main_thread = threading.Thread(target=ctl.main, daemon=True)
@@ -649,8 +651,10 @@ def run_native(decisions, msgs, re_attrs=None):
         RE = RunEngine({}, loop=ctl.loop, context_managers=[], during_task=DuringTask())
         RE.register_command("custom", ctl.custom)
         RE.register_command("custom_async", ctl.custom_async)
-        RE.subscribe(lambda name, doc: docs.append((name, dict(doc), ctl.trace[-1][:2] == ("msg", "close_run") if ctl.trace else False)))
-        RE.subscribe(lambda name, doc: ctl.c40.append(("doc", name, dict(doc))))
+        def collect(name, doc):          # (one subscription only: the C06 oracle counts the dispatcher's tokens)
+            docs.append((name, dict(doc), ctl.trace[-1][:2] == ("msg", "close_run") if ctl.trace else False))
+            ctl.c40.append(("doc", name, dict(doc)))
+        RE.subscribe(collect)
         for k_, v_ in (re_attrs or {}).items():
             setattr(RE, k_, v_)               # public configuration attributes of the scenario (e.g. record_interruptions)
         RE.msg_hook = ctl.on_msg
@@ -1025,7 +1029,7 @@ def _c40_violations(tag, res):
 def replay(model, info, art):
     decisions = art.get("decisions") or []
     msgs = (info.get("scenario") or {}).get("msgs") or list(MESSAGES)
-    res = run_native(decisions, msgs, re_attrs=info.get("re_attrs"))
+    res = run_native(decisions, msgs, re_attrs=info.get("re_attrs"), suspend_plans=info.get("suspend_plans"))
     res["failed_pause"] = any(x[0] == "plan-throw" and x[2] == "FailedPause" for x in res["log"])
     obligation = art.get("obligation", "")
     if obligation.startswith("known-"):
